@@ -35,7 +35,9 @@
 #define EVL (2 + MAXP * EVP)
 #define EVC (2 + MAXL * EVL)
 #define NEV (2 + NC * EVC)
-#define POSCODE 7
+#ifndef POSCODE
+#define POSCODE 7          /* the positive code a handler may answer; instances with POSCODE = 1 (CIF_FINISHED, the code the packet iterator uses for "no more packets") are enumerated too */
+#endif
 static unsigned NB, NF, NL, NP, NI;
 static int ANS[NEV]; static unsigned char cnt[NEV]; static int seq[NEV]; static int nseq;
 static int storage_calls;
